@@ -171,7 +171,8 @@ class Notes:
     """Deviations that are recorded but are not part of the compared projection."""
 
     def __init__(self):
-        self.stale_const_var_ty = 0
+        self.stale_const_var_ty = 0  # BoundConstVar whose cached type differs from its binder's
+        self._vars = []
 
 
 def proj_type(ty, notes: Notes | None = None, unmark=False):
@@ -219,8 +220,8 @@ def proj_const(c, notes: Notes | None = None):
     if isinstance(c, ConstValue):
         return ["cval", proj_type(c.ty, notes, unmark=True), repr(c.value)]
     if isinstance(c, BoundConstVar):
-        if notes is not None and c.ty.bound_vars:
-            notes.stale_const_var_ty += 1
+        if notes is not None:
+            notes._vars.append(c)
         return ["bc", c.idx, c.display_name]
     raise ValueError(f"cannot project const {c!r}")
 
@@ -243,6 +244,17 @@ def flag_name(flags) -> str:
 
 
 def proj_sig(f, notes=None):
+    if notes is not None:
+        notes._vars = []
+    out = _proj_sig(f, notes)
+    if notes is not None:
+        for c in notes._vars:
+            if c.idx < len(f.params) and getattr(f.params[c.idx], "ty", None) != c.ty:
+                notes.stale_const_var_ty += 1
+    return out
+
+
+def _proj_sig(f, notes=None):
     return {
         "params": [proj_param(p, notes) for p in f.params],
         "inputs": [[proj_type(i.ty, notes), flag_name(i.flags), i.name] for i in f.inputs],
